@@ -2,6 +2,7 @@
 import Barril.Model.Proto
 import Barril.Model.Str
 import Barril.Model.StrRender
+import Barril.Model.StrCaller
 open Lean Barril Barril.Proto Barril.Str
 
 def strJ (s : Str) : Json := symJ (Sym.ofBytes s)
@@ -94,27 +95,76 @@ def exprOfRpn (toks : List Json) : Except String Expr := do
   | [e] => pure e
   | _ => .error "rpn: not exactly one expression"
 
-/-- one step of a history: an expression over simple quantities, or a request to `ObtainQuantity` /
-`Quantity.CreateDerived` with a mapping, or the list form.  The model has no cache: every step is predicted from
-its own operands / request. -/
-def historyStep (reg : Reg) (st : Json) : Except String Json := do
-  let k ← getStr st "k"
+/-- what a creation step of a history makes, as a step of the caller model (`Barril.Str.Caller`): an expression over
+simple quantities (`other`), a request to `ObtainQuantity` / `Quantity.CreateDerived` with a mapping or the list form
+(the caller keeps the mapping: `request`), the same request object once more as it is now (`again`).  The model has no
+cache: every step is predicted from its own operands / request. -/
+def creationStep (reg : Reg) (s : Caller) (st : Json) (k : String) : Except String CStep := do
   match k with
   | "expr" =>
     let e ← exprOfRpn (← getArr st "rpn").toList
-    pure (stringsJ reg (e.eval reg))
+    pure (.other (e.eval reg))
   | "dict" =>
     let entries ← (← getArr st "entries").toList.mapM entryOfJson
-    -- the unknown-unit caption takes no part in the strings, only in `Quantity.__repr__`
-    let cap ← match st.getObjVal? "cap" with
-      | .ok c => symOfJson c
-      | .error _ => pure []
-    pure (stringsJC reg cap (obtainFromDict reg entries))
+    pure (.request (.dict entries))
   | "list" =>
     let pairs ← (← getArr st "pairs").toList.mapM itemOfJson
     let lcats ← (← getArr st "lcats").toList.mapM symOfJson
-    pure (stringsJ reg (obtainFromList reg pairs lcats))
+    pure (.request (.list pairs lcats))
+  | "again" => pure (.again (← intOfJson (← st.getObjVal? "slot")).toNat)
+  | "arith" =>
+    -- arithmetic on the quantity made as number `on`: `q * leaf`, `q / leaf`, `Scalar ** n`, `Quantity ** n`
+    let j := (← intOfJson (← st.getObjVal? "on")).toNat
+    if s.made.length ≤ j then throw "arith: no such quantity"
+    match ← getStr st "f" with
+    | "mul" =>
+      let c ← symOfJson (← st.getObjVal? "c"); let u ← symOfJson (← st.getObjVal? "u")
+      pure (.arith j (fun q => match newSimple reg c u with | .error e => .error e | .ok l => opQ reg .mul q l))
+    | "div" =>
+      let c ← symOfJson (← st.getObjVal? "c"); let u ← symOfJson (← st.getObjVal? "u")
+      pure (.arith j (fun q => match newSimple reg c u with | .error e => .error e | .ok l => opQ reg .div q l))
+    | "spow" => let n ← intOfJson (← st.getObjVal? "n"); pure (.arith j (fun q => spow reg q n))
+    | "qpow" => let n ← intOfJson (← st.getObjVal? "n"); pure (.arith j (fun q => qpow reg q n))
+    | f => throw s!"arith: unknown operation {f}"
   | _ => throw s!"unknown step kind {k}"
+
+def editOfJson (j : Json) : Except String Edit :=
+  match j with
+  | .arr #[.str "exp", i, x] => do pure (.setExp (← intOfJson i).toNat (← intOfJson x))
+  | .arr #[.str "unit", i, u] => do pure (.setUnit (← intOfJson i).toNat (← symOfJson u))
+  | .arr #[.str "add", c, u, e] => do pure (.add ⟨← symOfJson c, ← symOfJson u, ← intOfJson e⟩)
+  | .arr #[.str "del", i] => do pure (.del (← intOfJson i).toNat)
+  | _ => .error "edit = [exp,i,x] | [unit,i,u] | [add,c,u,e] | [del,i]"
+
+/-- all strings of every quantity made so far (with the caption it was asked with) -/
+def rereadJ (reg : Reg) (made : List (Except ErrKind Quantity)) (caps : List Str) : Json :=
+  Json.mkObj [("reread", Json.arr ((made.zip caps).map (fun p => stringsJC reg p.2 p.1)).toArray)]
+
+/-- one step of a history on the caller model; `caps` = the unknown-unit captions of the quantities made so far
+(the caption takes no part in the strings, only in `Quantity.__repr__`).  `edit`: the caller edits a request it holds,
+then ALL strings of every quantity made before are asked again; `reread`: the same without an edit. -/
+def historyStep (reg : Reg) (acc : Caller × List Str × List Json) (st : Json) :
+    Except String (Caller × List Str × List Json) := do
+  let (s, caps, outs) := acc
+  let k ← getStr st "k"
+  match k with
+  | "edit" =>
+    let slot := (← intOfJson (← st.getObjVal? "slot")).toNat
+    let ed ← editOfJson (← st.getObjVal? "ed")
+    let s' := s.step reg (.edit slot ed)
+    pure (s', caps, outs ++ [rereadJ reg s'.made caps])
+  | "reread" => pure (s, caps, outs ++ [rereadJ reg s.made caps])
+  | _ =>
+    let cs ← creationStep reg s st k
+    let cap ← match st.getObjVal? "cap" with
+      | .ok c => symOfJson c
+      | .error _ => pure []
+    let s' := s.step reg cs
+    match s'.made.getLast? with
+    | some r =>
+      if s'.made.length = s.made.length + 1 then pure (s', caps ++ [cap], outs ++ [stringsJC reg cap r])
+      else throw "the step made nothing (no such request)"
+    | none => throw "the step made nothing (no such request)"
 
 def handle (j : Json) : Except String Json := do
   let op ← getStr j "op"
@@ -123,7 +173,7 @@ def handle (j : Json) : Except String Json := do
     let cats ← (← getArr j "cats").toList.mapM catOfJson
     let names ← (← getArr j "names").toList.mapM nameOfJson
     let reg : Reg := ⟨cats, names⟩
-    let outs ← (← getArr j "steps").toList.mapM (historyStep reg)
+    let (_, _, outs) ← (← getArr j "steps").toList.foldlM (historyStep reg) (⟨[], []⟩, [], [])
     pure (Json.mkObj [("ok", Json.arr outs.toArray)])
   | "strings" =>
     let entries ← (← getArr j "entries").toList.mapM entryOfJson
